@@ -1,5 +1,7 @@
 package dig
 
+import "github.com/indexsupply/shovel/wpg"
+
 // zzIn builds an Input; sel selects it (gives it a column).
 func zzIn(typ string, sel bool, comps ...Input) Input {
 	in := Input{Name: "f", Type: typ, Components: comps}
@@ -55,3 +57,11 @@ func zzCatalogue(shape int) []Input {
 }
 
 const zzCatalogueSize = 18
+
+func wpgTable(name string, cols ...string) wpg.Table {
+	t := wpg.Table{Name: name}
+	for _, c := range cols {
+		t.Columns = append(t.Columns, wpg.Column{Name: c, Type: "bytea"})
+	}
+	return t
+}
